@@ -54,6 +54,27 @@ chk('C01',
     'bounded-exhaustive derivation exploration (molecule x cut x rendering) with model + differential oracle on the real resolver',
     'DESIGN.md section 4 C01')
 
+chk('C02',
+    'Base graph strings of the graph grammar (<=3 nodes quick / <=4 thorough, branches, rings, multiplied units, repeated names) x every assignment of 21 atomistic '
+    'and 11 coarse fragment templates (internal rings, charges, annotated and explicit H, shared atoms, labelled / directional / surplus descriptors) x matching convention, '
+    'plus the multi-level strings of the C06 generator, enumerated completely; after every real resolve() step the mapping invariants are evaluated (fragid lists, coarse '
+    'graph node sets, cover, template copies with names/elements, internal bonds and orders, annotations, fragname).',
+    COMMON_NOTE, 'bounded-exhaustive enumeration of base graph x fragment library; mapping invariant evaluated after every real resolution step',
+    'DESIGN.md section 4 C02')
+chk('C03',
+    'Same enumeration as C02 with edge orders 0-2, templates chosen for ambiguity and both matching conventions, plus the dedicated family (C01 cuts: one uniquely labelled '
+    'descriptor pair per cut bond, where the number of bonds must equal the base edge order); every inter-fragment edge of every result is judged against the reference '
+    'compatibility relation, template descriptor lists (no descriptor used twice), annotated order, base graph adjacency and edge order (attribution by assignment search at shared atoms).',
+    COMMON_NOTE, 'bounded-exhaustive enumeration of base graph x ambiguous fragment library x convention; bond invariants vs reference compatibility relation',
+    'DESIGN.md section 4 C03')
+chk('C06',
+    'Bottom graphs (10 feature molecules with every partition into 2-4 fragments, 6 coarse named graphs, a seed-selected slice) x every hierarchical grouping (all partitions '
+    'of the previous level into connected groups, up to 2-3 intermediate levels) x variants (descriptor kinds, fragment names reused across levels, one crossing edge expressed '
+    'by a shared node at an intermediate level); each multi-level string is driven three ways (repeated resolve with step invariants, resolve_iter, resolve_all) on the real '
+    'resolver and compared with the flattened two-level resolution.',
+    COMMON_NOTE, 'bounded-exhaustive enumeration of hierarchical groupings x resolver driving histories; differential + step invariants',
+    'DESIGN.md section 4 C06')
+
 NOT_YET = {}
 
 def main():
